@@ -414,6 +414,7 @@ def run(R):
     r7(R, ents)
     r8(R, ents)
     r9(R)
+    r10(R)
 
 
 def certify(R, prog, bodies, rule):
@@ -1200,3 +1201,60 @@ def r9(R):
              detail=None if ok else "the counter is advanced, the limit test fails and the function returns before any guard exists: nothing ever subtracts "
              "this charge, and the thread-local counter never returns to zero")
     R.floor("C16-R9", "functions that charge the depth counter and return a guard", n, 1)
+
+
+def r10(R):
+    """a comment ends at a carriage return or a line feed"""
+    prog = R.prog
+    R.rule("C16-R10", "comments end where SPARQL says: in the whitespace/comment skipper every token parser goes through, the code that "
+                      "runs once a `#` was seen looks for both line terminators of the grammar (`#xD` and `#xA`) - they occur as character "
+                      "constants of the search - and does not delegate the end of the comment to `str::lines`, which does not stop at a "
+                      "lone carriage return: text after a CR-terminated comment would be parsed as comment (patterns silently disappear, "
+                      "trailing garbage is accepted)")
+    b = R.body("C16-R10", "parser::sparql_skip_ws", crate="kolibrie")
+    if b is None:
+        return
+    R.saw(b)
+    hashes = [c for c in b.calls() if c.name() in ("strip_prefix", "starts_with") and any(a.get("k") == "const" and
+              (str(a.get("v")) == "35" or "#" in (F.const_strs(a) or [])) for a in c.args)]
+    if not R.ob("C16-R10", "anchor", "the skipper recognises the comment introducer `#` (found %d test)" % len(hashes), len(hashes) >= 1, where=b.where()):
+        return
+    region = set()
+    for bb in b.reachable_blocks():
+        for cd in G.conditions(b, bb):
+            if (cd.get("kind") == "variant" and cd.get("variant") == "Some" and cd.get("truth") is True) or \
+               (cd.get("kind") == "call" and cd.get("truth") is True and cd["call"] in hashes):
+                region.add(bb)
+    chars, names = set(), []
+    bodies = [(b, region)]
+    for bb, i, pl, rv, st in b.assigns():
+        if bb in region and rv["rv"] == "aggregate" and rv.get("ak") == "closure" and rv["closure"] in prog.bodies:
+            for x in prog.family(rv["closure"]):
+                bodies.append((x, None))
+    for x, reg in bodies:
+        for bb, t in x.terms():
+            if (reg is None or bb in reg) and t["t"] == "switch" and "char" in x.local_ty((F.op_place(t["discr"]) or {"l": 0})["l"]):
+                for v, tg in t["targets"]:
+                    try:
+                        chars.add(int(v))
+                    except Exception:
+                        pass
+        for bb, i, pl, rv, st in x.assigns():
+            if reg is None or bb in reg:
+                for o in F.rv_operands(rv):
+                    if o.get("k") == "const" and o.get("ty") == "char":
+                        chars.add(int(o.get("v")))
+        for c in x.calls():
+            if reg is None or c.bb in reg:
+                names.append(c.name())
+                for a in c.args:
+                    if a.get("k") == "const" and a.get("ty") == "char":
+                        chars.add(int(a.get("v")))
+                    for sx in (F.const_strs(a) or []) if a.get("k") == "const" else []:
+                        chars.update(ord(ch) for ch in sx)
+    R.ob("C16-R10", "region", "the comment branch of the skipper was located (%d blocks, calls: %s)" % (len(region), sorted(set(names))), len(region) >= 1, where=b.where())
+    ok = {10, 13} <= chars and "lines" not in names
+    R.ob("C16-R10", "terminators", "a comment runs to the first CR or LF (terminator characters searched for: %s%s)"
+         % (sorted(repr(chr(c)) for c in chars & {10, 13}), "; delegated to str::lines" if "lines" in names else ""), ok, where=b.where(hashes[0].ln),
+         detail=None if ok else "a comment closed by a lone carriage return swallows the query text up to the next line feed: the request is accepted "
+         "with a different structure, or text that is neither comment nor SPARQL is accepted after the query")
